@@ -16,7 +16,11 @@ def get_key_from_line(line: str) -> Key:
     reg = re.compile("([A-Z]|\_|0){3,32} ([a-f]|[A-F]|[0-9]){64} ([a-f]|[A-F]|[0-9])*")
     res = reg.match(line)
     if res is not None:
-        return Key(line)
+        key = Key(line)
+        # a secret is a non-empty whole number of bytes; anything else (e.g. the cut last line of a log that is still
+        # being written) is not a key
+        if re.fullmatch("([0-9a-fA-F]{2})+", key.value.strip()):
+            return key
     return None
 
 
